@@ -25,6 +25,10 @@ CLAIMED = {
     "C14": ("E1+E2", "Kani on is_true; MIR symbolic execution (z3+cvc5) of Operator::eval, BinOp::eval and the unary-not arm",
             "bounded model checking: truthiness table over every value kind; and/or operand selection by identity and short-circuit "
             "evaluation order for every operand kind; the `not` arm (known finding for non-boolean operands)"),
+    "C16": ("E2", "symbolic execution of Scope::set_variable / define_global (MIR), obligations decided by z3 and cvc5",
+            "bounded model checking (flag-rule scope): !default writes only over an absent or null binding, !global goes through define_global to the "
+            "root scope, a plain assignment writes the current scope's table, built-in modules refuse assignment; the scope-creation rules of the "
+            "evaluator are outside; one recorded finding (an unflagged assignment shadows an enclosing local)"),
     "C17": ("E1+E2", "Kani/CBMC bounded model checking of the real ValueRange; MIR symbolic execution of SrcRange::evaluate",
             "bounded model checking (@for scope): the visited sequence for all from,to in [-6,6] and the iteration count at the i64 limits"),
     "C26": ("E2", "symbolic execution of the closures' MIR, obligations decided by z3 and cvc5",
@@ -48,7 +52,6 @@ NOT_APPLICABLE = {
     "C09": "round trip through the plain-CSS parser: nom parser is out of reach",
     "C10": "the kernel is a Display impl interleaving digit extraction with write! into a String and f64: Display (concrete 1.5: no verdict in 200 s); 'printed decimal = correctly rounded binary' needs FP<->Real reasoning no solver here finishes",
     "C15": "precedence and associativity are decided by the nom parser layering",
-    "C16": "Scope::set_variable/define are Mutex<BTreeMap<Name, css::Value>> operations (intractable for CBMC) and depend on which transform.rs arms create sub-scopes",
     "C18": "FormalArgs::eval / CallArgs over Scope and css::Value: same obstacle as C16",
     "C19": "recursive selector trees of Strings: any harness with one combinator level gave no verdict in 420 s; `&` resolution re-enters the parser",
     "C20": "tree transformation over css::Item/Rule with Drop-time commits; heap-rich, css::Value inside",
